@@ -68,7 +68,7 @@ func runC20crypto(sch scheme, sc string, rep int, rng *rand.Rand) (int, int) {
 	ids := []uint16{1, 2, 3}
 	m := map[uint16]uint16{1: 1, 2: 2, 3: 3}
 	silent := sc == "honest-silent"
-	c := cluster.New(cluster.Config{Map: m, Silent: silent, Threshold: 1,
+	c := cluster.New(cluster.Config{Map: m, Silent: silent, Threshold: 1, FastBoxClock: 150 * time.Microsecond,
 		KGF: func(node uint16) tss.KeyGenerator { return sch.newKG(node) },
 		SF:  func(node uint16) tss.Signer { return sch.newSigner(node) }})
 	c.Net.Jitter = jitterC(rng.Int63())
